@@ -60,6 +60,8 @@ type lm struct {
 	genesisIssuerIn bool // some transfer targets the genesis issuer address
 	pendingCreated  []lmCreated
 	twinsDiverged   bool
+	staleTips       map[ref.Hash]bool
+	evalC02         bool // evaluate the conservation oracle after every observation (truncation scenarios)
 }
 
 type lmCreated struct {
@@ -246,6 +248,9 @@ func (m *lm) observe(opDesc string) {
 		if n.Log.FatalCount() > 0 {
 			m.addViol("C07", "log-fatal", "node %d logged Fatal: %v", i, n.Log.Fatals)
 		}
+	}
+	if m.evalC02 && !m.cfg.Trusted && !m.tainted && m.stuck == nil {
+		m.oracleC02(opDesc)
 	}
 }
 
@@ -555,6 +560,7 @@ func (m *lm) oracleC02(opDesc string) {
 		}
 		m.label("c02:quiescent-eval")
 		U := m.conf[i]
+		m.supplyClause(i, opDesc)
 		// exclude worlds with trusted sealing inside U (premise of the statement)
 		for h := range U {
 			if v := m.w.Arch.V[h]; v != nil && s.Trusted[v.SignerPublicAddress] {
@@ -609,6 +615,47 @@ func (m *lm) oracleC02(opDesc string) {
 			}
 			m.addViol("C02", sig, "node %d at quiescence after %s: over all confirmed vertices wallet %s (#%d) received %s but spent %s (%d confirmed spends; each individually covered in its own history: %v; some pair not ancestor-related: %v)", i, opDesc, k.Name, wi, in, out, len(spends), allCovered, concurrent)
 		}
+	}
+}
+
+// supplyClause: on a ledger with a single tip, without trusted sealing and without transfers to the genesis issuer,
+// the balances the NODE reports for all wallets but the genesis issuer add up to the genesis supply.
+func (m *lm) supplyClause(i int, opDesc string) {
+	s := m.snaps[i]
+	gi := m.w.Genesis.Transaction.IssuerAddress
+	if len(s.Tips()) != 1 || len(s.Trusted) > 0 || len(s.Parked) > 0 {
+		return
+	}
+	for _, v := range s.Live {
+		if v.Hash != m.w.Genesis.Hash && (v.Transaction.ReceiverAddress == gi || !spiceCanon(v.Transaction.Spice)) {
+			return
+		}
+	}
+	for _, v := range s.Stored {
+		if v.Hash != m.w.Genesis.Hash && v.Transaction.ReceiverAddress == gi {
+			return
+		}
+	}
+	// only wallets of this world can hold funds (every receiver the generator uses is one of them)
+	sum := new(big.Int)
+	for _, k := range m.w.Wallets {
+		if k.Addr == gi {
+			continue
+		}
+		b, err := m.w.Balance(i, k.Addr)
+		if err != nil {
+			return // an overdrawn wallet (merge finding) or the gross-flow overflow (C06 finding): nothing to add up
+		}
+		sum.Add(sum, ref.V(b))
+	}
+	want := ref.V(m.w.Genesis.Transaction.Spice)
+	m.label("c02:supply-sum-evaluated")
+	if sum.Cmp(want) != 0 {
+		sig := "supply-sum-differs"
+		if m.tainted {
+			sig = "merge-double-spend"
+		}
+		m.addViol("C02", sig, "node %d at quiescence after %s (single tip): the balances reported for all wallets add up to %s, the genesis supply is %s", i, opDesc, sum, want)
 	}
 }
 
@@ -676,8 +723,17 @@ func (m *lm) opPropose() string {
 			for i := range m.w.Nodes {
 				for t := range m.snaps[i].Tips() {
 					if _, desc := m.w.Arch.Anc(t)[h]; !desc && t != h {
+						// not yet: bring every node up to date and merge the tips, so that a later attempt can respend
 						m.label("c02:serialized-skip")
-						return ""
+						for j := range m.w.Nodes {
+							m.w.Apply(sim.Op{K: "deliverAll", N: j})
+						}
+						n := m.pickNode("sNode")
+						m.w.Apply(sim.Op{K: "propose", N: n, From: 0, To: 1, Data: 5})
+						for j := range m.w.Nodes {
+							m.w.Apply(sim.Op{K: "deliverAll", N: j})
+						}
+						return "serialized mode: deliverAll everywhere + merging data vertex"
 					}
 				}
 			}
